@@ -100,7 +100,13 @@ Inductive rpc :=
 | RLatest                             (* lapped: get(latest) *)
 | RLen (c lp : Z)                     (* get(length) at the cursor c; lp = lapped count to commit *)
 | RType (c lp nr : Z)                 (* get(type) *)
-| RLen0 (lp nr : Z)                   (* padding: get(length) at offset 0 *)
+| RLen0 (c lp nr : Z)                 (* padding: get(length) at offset 0 (c = the cursor of the padding record) *)
+(* W64R (fixes/C08-receive-next-revalidate.diff): the header words are read first (l1 = length word at the cursor c,
+   l0 = length word at offset 0 after a padding record), then do_validate(c), then they are used *)
+| RTypeR (c lp l1 : Z)                (* get(type) at c *)
+| RLen0R (c lp l1 : Z)                (* padding: get(length) at offset 0 *)
+| RVal3 (c lp l1 : Z) (pad : bool) (l0 : Z)   (* get_volatile(tail intent) of do_validate(c) *)
+| RLatest3 (lp : Z)                   (* that validation failed: get(latest), restart there without reading a header *)
 | RHLen                               (* receiver.length() *)
 | RHType (len : Z)                    (* receiver.type_id() *)
 | RValH (len ty : Z)                  (* repaired code only: receiver.validate() before the header words are used *)
@@ -121,7 +127,7 @@ Definition r_finished (r : rstate) : bool :=
 Definition validate_cmp (m : mode) (w : vwidth) (cap : Z) (c it : Z) : outcome bool :=
   match w with
   | W32 => s <- add32 m (wrap32 c) cap ;; Ok (s >? wrap32 it)
-  | W64 => s <- add64 m c cap ;; Ok (s >? it)
+  | W64 | W64R => s <- add64 m c cap ;; Ok (s >? it)
   end.
 
 Definition r_set (r : rstate) (pc : rpc) : rstate :=
@@ -151,14 +157,34 @@ Definition rx_next (m : mode) (w : vwidth) (hv : bool) (cap : Z) (mm : mem) (r :
   | RLatest => r_set r (RLen (get64 mm (latest_idx cap)) (lapped x + 1))
   | RLen c lp =>
       let ro := Z.land (wrap32 c) (cap - 1) in
-      of_outcome r (a1 <- align32 m (get32 mm ro) RA ;; add64 m c a1) (fun nr => r_set r (RType c lp nr))
+      if revalidates w then r_set r (RTypeR c lp (get32 mm ro))
+      else of_outcome r (a1 <- align32 m (get32 mm ro) RA ;; add64 m c a1) (fun nr => r_set r (RType c lp nr))
   | RType c lp nr =>
       let ro := Z.land (wrap32 c) (cap - 1) in
-      if get32 mm (ro + 4) =? PADDING then r_set r (RLen0 lp nr)
+      if get32 mm (ro + 4) =? PADDING then r_set r (RLen0 c lp nr)
       else after_next r {| cursor := c; next_record := nr; record_offset := ro; lapped := lp |}
-  | RLen0 lp nr =>
+  | RLen0 c lp nr =>
       of_outcome r (a2 <- align32 m (get32 mm 0) RA ;; add64 m nr a2)
         (fun nr2 => after_next r {| cursor := nr; next_record := nr2; record_offset := 0; lapped := lp |})
+  | RTypeR c lp l1 =>
+      let ro := Z.land (wrap32 c) (cap - 1) in
+      if get32 mm (ro + 4) =? PADDING then r_set r (RLen0R c lp l1) else r_set r (RVal3 c lp l1 false 0)
+  | RLen0R c lp l1 => r_set r (RVal3 c lp l1 true (get32 mm 0))
+  | RVal3 c lp l1 pad l0 =>
+      let ro := Z.land (wrap32 c) (cap - 1) in
+      of_outcome r (validate_cmp m w cap c (get64 mm (intent_idx cap)))
+        (fun v =>
+           if v then
+             of_outcome r (a1 <- align32 m l1 RA ;; add64 m c a1)
+               (fun nr =>
+                  if pad then
+                    of_outcome r (a2 <- align32 m l0 RA ;; add64 m nr a2)
+                      (fun nr2 => after_next r {| cursor := nr; next_record := nr2; record_offset := 0; lapped := lp |})
+                  else after_next r {| cursor := c; next_record := nr; record_offset := ro; lapped := lp |})
+           else r_set r (RLatest3 (lp + 1)))
+  | RLatest3 lp =>
+      let l := get64 mm (latest_idx cap) in
+      after_next r {| cursor := l; next_record := l; record_offset := Z.land (wrap32 l) (cap - 1); lapped := lp |}
   | RHLen =>
       of_outcome r (sub32 m (get32 mm (record_offset x)) HL)
         (fun len => if hv then r_set r (RHType len)
@@ -188,11 +214,11 @@ Definition rx_event (cap : Z) (mm : mem) (r : rstate) : event :=
   let x := r_rx r in
   match r_pc r with
   | RIdle => (1, GetVolatile, 0, tail_idx cap, 8, 0, 0, get64 mm (tail_idx cap))
-  | RVal1 | RValH _ _ | RVal2 _ _ => (1, GetVolatile, 0, intent_idx cap, 8, 0, 0, get64 mm (intent_idx cap))
-  | RLatest => (1, Get, 0, latest_idx cap, 8, 0, 0, get64 mm (latest_idx cap))
+  | RVal1 | RValH _ _ | RVal2 _ _ | RVal3 _ _ _ _ _ => (1, GetVolatile, 0, intent_idx cap, 8, 0, 0, get64 mm (intent_idx cap))
+  | RLatest | RLatest3 _ => (1, Get, 0, latest_idx cap, 8, 0, 0, get64 mm (latest_idx cap))
   | RLen c _ => let ro := Z.land (wrap32 c) (cap - 1) in (1, Get, 0, ro, 4, 0, 0, get32 mm ro)
-  | RType c _ _ => let ro := Z.land (wrap32 c) (cap - 1) in (1, Get, 0, ro + 4, 4, 0, 0, get32 mm (ro + 4))
-  | RLen0 _ _ => (1, Get, 0, 0, 4, 0, 0, get32 mm 0)
+  | RType c _ _ | RTypeR c _ _ => let ro := Z.land (wrap32 c) (cap - 1) in (1, Get, 0, ro + 4, 4, 0, 0, get32 mm (ro + 4))
+  | RLen0 _ _ _ | RLen0R _ _ _ => (1, Get, 0, 0, 4, 0, 0, get32 mm 0)
   | RHLen => (1, Get, 0, record_offset x, 4, 0, 0, get32 mm (record_offset x))
   | RHType _ => (1, Get, 0, record_offset x + 4, 4, 0, 0, get32 mm (record_offset x + 4))
   | RCopy len _ => (1, CopyFrom, -1, -1, (if len <? 0 then two64 + len else len), record_offset x + HL, 0, 0)
@@ -245,5 +271,5 @@ Definition init_cstate (cap c0 : Z) (pre : list (Z * list Z)) (msgs : list (Z * 
 Definition run_conc (m : mode) (w : vwidth) (hv : bool) (cap c0 : Z) (pre msgs : list (Z * list Z)) (nrecv : nat)
                     (sched : list Z) : cstate :=
   let s := run_schedule m w hv cap (init_cstate cap c0 pre msgs nrecv) sched in
-  let fuel := (11 * (length msgs + nrecv) + 11)%nat in
+  let fuel := (13 * (length msgs + nrecv) + 13)%nat in
   drain m w hv cap 1 fuel (drain m w hv cap 0 fuel s).
